@@ -55,6 +55,8 @@ def gen(rng, tier, k=None):
         cfg['kl_clip'] = 0.001
         i = rng.randrange(len(layers))
         cfg['layers'][i] = layers[i][:3] + (0,)
+    if rng.random() < 0.5:
+        cfg['explicit_pipe_group'] = True
     hist = [['train', 1] for _ in range(rng.randint(1, 3))]
     if rng.random() < 0.3:          # a damping schedule with inverses reused across steps: the CURRENT damping must be used (plain eigen path)
         cfg['damping'] = ['table', [rng.choice([0.5, 0.25, 1.0, 2.0]) for _ in range(6)]]
